@@ -35,7 +35,8 @@ fn direct(kind: usize, total: usize, fperiod: usize) -> SpeechGenerator {
         lf0.push(vec![if t % 3 == 1 { NODATA } else { rng.uniform(4.5, 5.5) }]);
         // every trajectory depends on the frame (a missing frame offset in any of the three must show): the low-pass
         // taps differ from frame to frame and are not symmetric
-        lpf.push(if nlpf == 1 { vec![rng.uniform(0.5, 1.5)] } else { vec![rng.uniform(0.1, 0.4), 0.5, rng.uniform(0.0, 0.3)] });
+        // (a single tap of exactly 1 on every other frame: pure pulses, so the excitation is exactly zero between them)
+        lpf.push(if nlpf == 1 { vec![if t % 2 == 0 { 1.0 } else { rng.uniform(0.5, 1.5) }] } else { vec![rng.uniform(0.1, 0.4), 0.5, rng.uniform(0.0, 0.3)] });
     }
     SpeechGenerator::new(fperiod, vocoder, sp, lf0, lpf)
 }
